@@ -54,10 +54,42 @@ pub struct Log {
     pub faults: usize,
 }
 
+/// how an injected error is represented inside `io::Error` (callers must only look at `kind()`)
+#[derive(Clone, Copy, Debug, PartialEq, Eq)]
+pub enum ErrRepr {
+    /// `io::Error::new(kind, "injected")`
+    Custom,
+    /// `io::Error::from(kind)`
+    Simple,
+    /// `io::Error::from_raw_os_error(EINTR / EAGAIN)` - what files, pipes and terminals produce
+    /// (kinds without a fitting errno fall back to `Simple`)
+    Os,
+}
+
+impl ErrRepr {
+    pub fn of(n: u8) -> ErrRepr {
+        match n % 3 {
+            0 => ErrRepr::Custom,
+            1 => ErrRepr::Simple,
+            _ => ErrRepr::Os,
+        }
+    }
+    pub fn make(self, k: ErrorKind, what: &'static str) -> io::Error {
+        match (self, k) {
+            (ErrRepr::Custom, _) => io::Error::new(k, what),
+            (ErrRepr::Os, ErrorKind::Interrupted) => io::Error::from_raw_os_error(4),
+            (ErrRepr::Os, ErrorKind::WouldBlock) => io::Error::from_raw_os_error(11),
+            (ErrRepr::Os, ErrorKind::BrokenPipe) => io::Error::from_raw_os_error(32),
+            _ => io::Error::from(k),
+        }
+    }
+}
+
 pub struct Scripted {
     script: VecDeque<Resp>,
     pub log: Rc<RefCell<Log>>,
     pub flush_error: Option<ErrorKind>,
+    pub repr: ErrRepr,
 }
 
 impl Scripted {
@@ -68,6 +100,7 @@ impl Scripted {
                 script: script.iter().copied().collect(),
                 log: log.clone(),
                 flush_error: None,
+                repr: ErrRepr::Custom,
             },
             log,
         )
@@ -103,13 +136,14 @@ impl io::Write for Scripted {
             buf: buf.to_vec(),
             resp: res,
         });
-        res.map_err(|k| io::Error::new(k, "injected"))
+        let repr = self.repr;
+        res.map_err(|k| repr.make(k, "injected"))
     }
 
     fn flush(&mut self) -> io::Result<()> {
         self.log.borrow_mut().flushes += 1;
         match self.flush_error {
-            Some(k) => Err(io::Error::new(k, "injected flush error")),
+            Some(k) => Err(self.repr.make(k, "injected flush error")),
             None => Ok(()),
         }
     }
